@@ -58,6 +58,27 @@ def gen_shard(args):
     return out, cdir, stats
 
 
+def regress_shard(workdir):
+    """Replays the kept choice sequences (/verif/regress: counterexamples of repaired defects, known findings,
+    behaviours exported from the TLA+ model) into the current code."""
+    d = os.path.join(common.VERIF, "regress")
+    if not os.path.isdir(d) or not any(f.endswith(".json") for f in os.listdir(d)):
+        return None
+    out = os.path.join(workdir, "regress.ndjson")
+    cdir = os.path.join(workdir, "regress.choices")
+    os.makedirs(cdir, exist_ok=True)
+    tmp = os.path.join(workdir, "tmp-regress")
+    os.makedirs(tmp, exist_ok=True)
+    env = dict(os.environ)
+    env["TMPDIR"] = tmp
+    p = subprocess.run([common.HQV, "cluster", "replaymany", "--dir", d, "--out", out, "--choices-dir", cdir], env=env,
+                       stdout=subprocess.PIPE, stderr=subprocess.PIPE, text=True, timeout=1800)
+    shutil.rmtree(tmp, ignore_errors=True)
+    if p.returncode != 0:
+        raise common.ToolError("regress replay failed: " + p.stderr[-2000:])
+    return out, cdir, json.loads(p.stderr.strip().splitlines()[-1])
+
+
 def validate_shard(args):
     workdir, trace = args
     out = common.tlc("HQTrace.tla", "HQTrace.cfg", workdir, env={"TRACE": trace}, workers=1, timeout=1800)
@@ -123,6 +144,9 @@ def run(pid, tier, seed):
                 jobs.append((work, profile, s, runs, steps + (s % 3) * 20, seed))
         with cf.ThreadPoolExecutor(max_workers=max(2, common.NCPU - 2)) as ex:
             shards = list(ex.map(gen_shard, jobs))
+        reg = regress_shard(work)
+        if reg:
+            shards.append(reg)
         with cf.ThreadPoolExecutor(max_workers=max(2, common.NCPU // 2)) as ex:
             results = list(ex.map(validate_shard, [(work, s[0]) for s in shards]))
         violations, others = analyse(pid, shards, results)
